@@ -900,6 +900,8 @@ def run(ctx):
         k_rules(F, ctx)
     except AnchorError as e:
         ctx.rule("C05-K", "slot refresh rules").broken(str(e))
+    from . import c01 as _c01
+    ctx.run("C01-D1", "routing legs are queried in travel direction (the cached tour distance / duration feeds the fitness and the report)", _c01.d1_leg_direction, floor=4)
     ctx.run("C05-R1", "schedule recurrence: arrival/departure/carry of the forward pass and the total duration have their defining form (canonical expressions)", r1_schedule_recurrence, floor=1)
     ctx.run("C05-R2", "latest-arrival / waiting recurrence of the backward pass has its defining form (canonical expressions)", r2_latest_arrival_recurrence, floor=1)
     ctx.run("C05-R3", "activity time formulas: departure = max(arrival, tw.start) + duration; latest arrival = min(tw.end, departure - duration)", r3_activity_time_formulas, floor=2)
